@@ -1,4 +1,5 @@
 import IceProofs.AgentC07Frame
+import IceProofs.AgentAuto
 /-!
 # C07 frame across the control plane: timer ticks, selectors, STUN handlers, Restart
 
@@ -118,11 +119,32 @@ theorem Fr_validate_keepalive (a : Agent) (now : Nat) :
   · exact h.trans (Fr_keepalive _ _)
   · exact h
 
+theorem Fr_autoRenom (a : Agent) (now : Nat) : Fr a (a.autoRenom now).1 := by
+  refine IceProofs.Auto.autoRenom_parts (P := fun x => Fr a x.1) ?_ a (Fr.refl a)
+  exact {
+    mark := fun _ _ _ _ h _ _ => h.trans (by fr_mod)
+    ping := fun b _ l r h _ _ => h.trans (Fr_ping b now l r)
+    time := fun _ _ h => h.trans (by fr_same)
+    count := fun _ _ h => h.trans (by fr_same)
+    issue := fun b _ l r nom h _ _ _ _ _ => h.trans (Fr_sendRequest b now l r true nom)
+    log := fun _ _ _ h => h.trans (by fr_same) }
+
+theorem Fr_validate_keepalive_auto (a : Agent) (now : Nat) :
+    Fr a (let (a, o, ok) := a.validateSelected now
+      if ok then let (a, o') := a.keepalive now; let (a, o'') := a.autoRenom now; (a, o ++ o' ++ o'') else (a, o)).1 := by
+  have h := Fr_validateSelected a now
+  generalize a.validateSelected now = x at *
+  obtain ⟨a1, o, ok⟩ := x
+  dsimp only
+  split
+  · exact (h.trans (Fr_keepalive _ _)).trans (Fr_autoRenom _ _)
+  · exact h
+
 theorem Fr_contactCandidates (a : Agent) (now : Nat) : Fr a (a.contactCandidates now).1 := by
   unfold Agent.contactCandidates
   split
   · split
-    · exact Fr_validate_keepalive a now
+    · exact Fr_validate_keepalive_auto a now
     · split
       · exact Fr_nominate _ _ _
       · split
